@@ -75,6 +75,14 @@ def corpus():
         # ARP behind the ether type: LaxPacketHeaders must report an empty payload like PacketHeaders (fix d79cab6)
         "et:2054 0001080006040001aabbccddeeff0a000001000000000000c0a80001",
         "eth 0102030405060708090a0b0c0806" + "0001080006040001aabbccddeeff0a000001000000000000c0a80001",
+        # audit round 1 (C05_lax_prefix_net): IPv6 / dest options (complete) / routing header cut short
+        "eth " + eth + "86dd" + "60000000" + "0014" + "3c40" + "00" * 32 + "2b00000000000000" + "1101" + "00" * 10,
+        # IPv4 / authentication header with payload length 0
+        "ip 4500002000000000403300000102030405060708" + "11" + "00" * 11,
+        # IPv4 total length 100 > 24 bytes, authentication header cut short: fallback, resumed decoding fails at the AH
+        "ip 4500006400000000403300000102030405060708" + "11040000",
+        # IPv6 payload length 50 > data, fragment header + UDP: fallback, resumed decoding accepts
+        "ip 6000000000322c40" + "00" * 32 + "1100000000000000" + "0001000200080000",
     ]
 
 
@@ -447,6 +455,68 @@ def oracle_prefix(ent, L, pw):
     return None
 
 
+# ---- audit round 1: (b) for faults inside the network layer --------------------------------------
+_LNET = re.compile(r" net=(\S+) tr=(\S+) stop=(.*)$")
+_NW_REJNET = re.compile(r"^rejnet (\(.*\)@\w+) net=(\S+)$")
+_NW_AFTER = re.compile(r"^(?:acc|rej .*) net=(\S+)$")
+_PLFLAGS = re.compile(r"pl\((\d),\d+,\d,(\w+),")
+
+
+def net_class(nw):
+    """histogram class of the finer instrumented strict reference decoder's answer"""
+    if nw.startswith("fb "):
+        return "fb->" + nw.partition(" -> ")[2].split(" ", 1)[0]
+    return nw.split(" ", 1)[0]
+
+
+def oracle_prefix_net(L, nw):
+    """C05_lax_prefix_net on the implementation: `nw` = rendering of pwire2 (Parse/LaxWire2.v, the strict
+    reference decoder handing back the network layer decoded so far).
+      rejnet (e)@tag net=N : the lax result must be Ok with network layer exactly N, stop error exactly
+                             (e)@tag, no transport layer
+      fb e inc=b -> R      : (length fallback) the lax network layer has incomplete=b and len_source Slice;
+                             R = rejnet ...: as above; R = acc/rej ... net=V: the lax network layer without
+                             the incomplete flag is V
+    returns None | (why, class)"""
+    def rejnet(txt):
+        m = _NW_REJNET.match(txt)
+        if not m:
+            return "cannot parse '%s'" % txt
+        ml = _LNET.search(L)
+        if not L.startswith("ok") or not ml:
+            return "strict reference fails inside the network layer (%s) but lax is '%s'" % (txt, L)
+        if ml.group(1) != m.group(2):
+            return "network layer decoded in front of the fault is '%s' but lax has '%s'" % (m.group(2), ml.group(1))
+        if ml.group(3) != m.group(1):
+            return "fault inside the network layer %s but lax stop_err is %s" % (m.group(1), ml.group(3))
+        if ml.group(2) != "none":
+            return "fault inside the network layer %s but lax decoded a transport layer %s" % (m.group(1), ml.group(2))
+        return None
+    if nw.startswith("rejnet "):
+        why = rejnet(nw)
+        return ("(b-net) " + why, None) if why else None
+    if nw.startswith("fb "):
+        head, _, res = nw.partition(" -> ")
+        inc = head.rsplit(" inc=", 1)[1]
+        ml = _LNET.search(L)
+        if not L.startswith("ok") or not ml:
+            return ("(b-net) IP length fallback (%s) but lax is '%s'" % (head, L), None)
+        fl = _PLFLAGS.search(ml.group(1))
+        if not fl or fl.group(1) != inc or fl.group(2) != "slice":
+            return ("(b-net) IP length fallback (%s): lax network layer '%s' must have incomplete=%s, len_source slice" % (
+                head, ml.group(1), inc), None)
+        if res.startswith("rejnet "):
+            why = rejnet(res)
+            return ("(b-net) resumed after %s: %s" % (head, why), None) if why else None
+        m = _NW_AFTER.match(res)
+        if not m:
+            return ("(b-net) cannot parse resumed decoding '%s'" % res, None)
+        if _FLAG.sub(lambda x: x.group(1) + "(", ml.group(1)) != m.group(1):
+            return ("(b-net) resumed after %s: network layer '%s' but lax has '%s'" % (head, m.group(1), ml.group(1)), None)
+    return None
+# ---- end audit round 1 ----
+
+
 def compare(ctx, cases, impl, model_lines):
     corr, orc = [], []
     hist = {}
@@ -455,9 +525,13 @@ def compare(ctx, cases, impl, model_lines):
     for i, c in enumerate(cases):
         ent, h = c.split()
         data = bytes.fromhex(h) if h != "-" else b""
-        m = w = lw = pw = None
+        m = w = lw = pw = nw = None
         if model_lines is not None:
             ml = model_lines[i]
+            if " |N " in ml:            # audit round 1
+                ml, nw = ml.rsplit(" |N ", 1)
+                k = "%s:reference2 %s" % (ent.split(":")[0], net_class(nw))
+                hist[k] = hist.get(k, 0) + 1
             if " |P " in ml:
                 ml, pw = ml.rsplit(" |P ", 1)
             if " |L " in ml:
@@ -491,6 +565,8 @@ def compare(ctx, cases, impl, model_lines):
                 o = ("(ref) lax result differs from the lax reference decoder (Parse/LaxWire.v): impl '%s' reference '%s'" % (L, lw), None)
             if not o and pw is not None:
                 o = oracle_prefix(ent, L, pw)
+            if not o and nw is not None:    # audit round 1
+                o = oracle_prefix_net(L, nw)
             if not o and hdrs:
                 LH, _, SH = hdrs.partition(" ## ")
                 o = oracle_headers(ent, data, LH, SH)
